@@ -46,6 +46,9 @@ def tasks(tier):
     for dim in (2, 3):
         ts.append(("load cases dim=%d" % dim, "run_included", dict(modname="c08", fname="run_loadcases", kwargs=dict(dim=dim), oid="C09.O3",
                                                              why="a homogeneous uniaxial / biaxial state needs the load case to prescribe exactly these unknowns")))
+        # a specimen whose lower and upper bounds differ from axis to axis (centred, non-square block)
+        ts.append(("load cases dim=%d, bounds differ per axis" % dim, "run_included", dict(modname="c08", fname="run_loadcases", kwargs=dict(dim=dim, orphan="two"), oid="C09.O3",
+                                                                                        why="the default end faces of a load case are the mesh bounds along the *loaded* axis")))
     # the affine patch test prescribes an array of values per boundary: dof.apply has to put each value at the position of its unknown
     for dim in (2, 3):
         ts.append(("prescribed values dim=%d" % dim, "run_included", dict(modname="c08", fname="run_partition", kwargs=dict(dim=dim), oid="C09.O5", select_oid="C08.O4",
